@@ -11,7 +11,7 @@ PID = "C01"
 THEOREMS = {"CbProps.C01": ["CbProps.C01." + t for t in [
     "tdiv_tmod_spec", "div_mod_zero_is_error", "shr_floor", "output_prefix_monotone", "call_output_monotone",
     "nothing_after_error", "error_is_nonzero_exit", "for_continue_runs_update", "break_leaves_loop",
-    "for_as_init_then_loop"]]}
+    "for_as_init_then_loop", "meaning_independent_of_fuel", "two_terminating_runs_agree"]]}
 
 BIN = ["add", "sub", "mul", "div", "mod", "shl", "shr", "band", "bor", "bxor", "lt", "le", "gt", "ge", "eq", "ne",
        "land", "lor"]
